@@ -44,26 +44,3 @@ Proof.
 Qed.
 
 (** ---- SEARCH <set> outside the classes ---- *)
-(** ---- UID SEARCH UID a:b, a <= b ---- *)
-Theorem uidsearch_set_exact : forall (s : seqset) (uids : list Z),
-  wf s = true -> classify_uidsearch s = None ->
-  uidsearch_set (print s) uids = addressed_uids s uids.
-Proof.
-  intros s uids H Hc.
-  destruct s as [|[[k|]|[a|] [b|]] [|it2 s]]; try discriminate.
-  cbn [classify_uidsearch] in Hc. destruct (b <? a) eqn:E; [discriminate|]. apply Z.ltb_ge in E.
-  unfold wf in H. cbn [forallb wf_item wf_num] in H. rewrite andb_true_r in H.
-  apply andb_true_iff in H. destruct H as [Ha Hb].
-  assert (Ia : in64 a) by (apply (wf_num_in64 (Num a) Ha 0); unfold in64, max_int64; lia).
-  assert (Ib : in64 b) by (apply (wf_num_in64 (Num b) Hb 0); unfold in64, max_int64; lia).
-  unfold print. cbn [map join print_item print_num].
-  assert (CC : contains_byte (itoa a ++ [c_colon] ++ itoa b) c_colon = true).
-  { rewrite !contains_byte_app. replace (contains_byte [c_colon] c_colon) with true by reflexivity.
-    now rewrite orb_true_l, orb_true_r. }
-  assert (SP : split_byte (itoa a ++ [c_colon] ++ itoa b) c_colon = [itoa a; itoa b])
-    by (apply split_byte_two; apply digits_no_byte; try reflexivity; now apply itoa_digits).
-  unfold uidsearch_set. change (":"%char) with c_colon. rewrite CC, SP, !atoi_lossy_itoa by assumption.
-  unfold addressed_uids. apply filter_ext. intros u. unfold denote. simpl. rewrite orb_false_r.
-  rewrite Z.min_l, Z.max_r by lia. reflexivity.
-Qed.
-
